@@ -38,7 +38,8 @@ enum FaultKind
   F_READ_EIO = 3,    // read fails with err once offset is reached
   F_WRITE_FAIL = 4,  // writes fail with err after offset bytes were accepted (sticky)
   F_VANISH = 5,      // file is removed from the fs right before its nth open
-  F_UNLINK_FAIL = 6  // unlink of path fails with err
+  F_UNLINK_FAIL = 6, // unlink of path fails with err
+  F_NOSEEK = 7       // the stream is a pipe: every seek fails with ESPIPE (reads go on from where they are)
 };
 
 struct Fault
